@@ -12,9 +12,13 @@ import (
 	"flag"
 	"fmt"
 	"os"
+	"runtime"
 	"sort"
 	"strconv"
 	"strings"
+	"sync"
+	"sync/atomic"
+	"time"
 )
 
 type rec struct {
@@ -36,6 +40,7 @@ func newRec(dir string) *rec {
 
 // emit records one op line and the implementation's answer.
 func (r *rec) emit(kind, op, answer string) {
+	beat()
 	r.seq++
 	fmt.Fprintf(r.ops, "%d %s\n", r.seq, op)
 	fmt.Fprintf(r.impl, "%d %s\n", r.seq, answer)
@@ -66,6 +71,33 @@ func (r *rec) finish(dir string, extra map[string]interface{}) {
 }
 
 var cleanups []func()
+
+// ---- hang detector: a library call that never returns must not hang the check ----------------
+var (
+	lastBeat atomic.Int64
+	hangCtx  sync.Map // session, seed, tier: where the harness is (for the replay)
+)
+
+func beat() { lastBeat.Store(time.Now().UnixNano()) }
+
+func watchHang(r *rec, out string, extra map[string]interface{}, limit time.Duration) {
+	beat()
+	for {
+		time.Sleep(time.Second)
+		if time.Since(time.Unix(0, lastBeat.Load())) < limit {
+			continue
+		}
+		buf := make([]byte, 1<<20)
+		buf = buf[:runtime.Stack(buf, true)]
+		ctx := map[string]interface{}{"last_seq": r.seq, "goroutines": string(buf), "idle_seconds": limit.Seconds()}
+		hangCtx.Range(func(k, v interface{}) bool { ctx[k.(string)] = v; return true })
+		b, _ := json.MarshalIndent(ctx, "", " ")
+		os.WriteFile(out+"/hang.json", b, 0o644)
+		r.finish(out, extra) // the main goroutine is parked inside the library: nobody else writes
+		fmt.Fprintln(os.Stderr, "harness: no progress for", limit, "- a library call did not return; see hang.json")
+		os.Exit(4)
+	}
+}
 
 func jsonMarshal(v interface{}) ([]byte, error) { return json.Marshal(v) }
 
@@ -131,9 +163,21 @@ func main() {
 		os.Exit(2)
 	}
 	check(os.MkdirAll(*out, 0o755))
+	go func() { // a library goroutine that floods a channel must not take the machine down with us
+		var ms runtime.MemStats
+		for {
+			time.Sleep(time.Second)
+			runtime.ReadMemStats(&ms)
+			if ms.HeapAlloc > 6<<30 {
+				fmt.Fprintln(os.Stderr, "harness: heap above 6 GiB, giving up (runaway producer in the library?)")
+				os.Exit(3)
+			}
+		}
+	}()
 	r := newRec(*out)
 	g := &rng{s: seedFromEnv()}
 	extra := map[string]interface{}{"seed": seedFromEnv(), "tier": *tier}
+	go watchHang(r, *out, extra, 90*time.Second)
 	switch cmd {
 	case "pure":
 		if *replay != "" {
